@@ -116,11 +116,24 @@ def _names(lst):
     return sorted(s.short_name for s in lst)
 
 
-def _report(new, old):
+def _report(new, old, sx=None):
     from odxtools.cli.compare import Comparison
     with warnings.catch_warnings():
         warnings.simplefilter("ignore")
-        return Comparison().compare_diagnostic_layers(new, old)
+        rep = Comparison().compare_diagnostic_layers(new, old)
+        if sx is not None:
+            # a later comparison in the same process is not influenced by an earlier one: the layer
+            # against itself reports nothing, and the earlier report is left alone
+            snap = [_names(rep["new_services"]), _names(rep["deleted_services"]),
+                    _names(rep["changed_name_of_service"][0]),
+                    _names(rep["changed_parameters_of_service"][0])]
+            again = Comparison().compare_diagnostic_layers(new, new)
+            _require_only(sx, again)
+            sx.require(snap == [_names(rep["new_services"]), _names(rep["deleted_services"]),
+                                _names(rep["changed_name_of_service"][0]),
+                                _names(rep["changed_parameters_of_service"][0])],
+                       "an-earlier-report-is-not-altered-by-a-later-comparison")
+        return rep
 
 
 def _require_only(sx, rep, new=(), deleted=(), renamed=(), changed=()):
@@ -151,7 +164,7 @@ def run_numeric(sx, cfg, env):
     new_vals[key] = sx.int("new", *RANGE[key])
     sx.assume(old_vals[key] != new_vals[key])
     old, new, _ = _layers(old_vals, new_vals)
-    rep = _report(new, old)
+    rep = _report(new, old, sx)
     sx.cover("compared")
     _require_only(sx, rep, changed=[svc])
     ch = rep["changed_parameters_of_service"]
@@ -173,7 +186,7 @@ def run_structural(sx, cfg, env):
     sx.assume(sel == 0)
     old, new, what = _layers(dict(BASE), dict(BASE), structural=cfg["edit"])
     svc, kind = what
-    rep = _report(new, old)
+    rep = _report(new, old, sx)
     sx.cover("compared")
     if kind == "new":
         _require_only(sx, rep, new=[svc])
@@ -250,22 +263,30 @@ def run_overview(sx, cfg, env):
             "layers": [{"name": "P1", "type": "protocol", "parents": [],
                         "comparams": [{"cp": x, "value": "5", "protocol": None} for x in names[:1]]},
                        {"name": "EV", "type": "ecu-variant", "parents": ["P1"], "comparams": own}]}
-    layer = H.build_hierarchy(spec)["layers"]["EV"]
+    if cfg.get("rows"):
+        # several rows in one overview, layers without communication parameters in between
+        spec["layers"].insert(1, {"name": "SD1", "type": "ecu-shared-data", "parents": []})
+        spec["layers"].append({"name": "SD2", "type": "ecu-shared-data", "parents": []})
+    built = H.build_hierarchy(spec)["layers"]
+    rows = [built[x] for x in cfg.get("rows", ["EV"])]
     seen = []
     real = pu.rich_print
     pu.rich_print = lambda t, *a, **k: seen.append(t)
     try:
-        pu.print_dl_metrics([layer])
+        pu.print_dl_metrics(rows)
     finally:
         pu.rich_print = real
     sx.cover("compared")
     cells = [list(c.cells) for c in seen[0].columns]
-    sx.observe("row", [c[0] for c in cells])
-    sx.require(cells[0][0] == "EV", "overview-names-the-layer")
-    sx.require(cells[2][0] == str(len(list(layer.services))), "overview-counts-the-services")
-    sx.require(cells[3][0] == str(len(layer.diag_data_dictionary_spec.data_object_props)),
-               "overview-counts-the-data-objects")
-    sx.require(cells[4][0] == str(n), "overview-counts-the-communication-parameters")
+    sx.observe("rows", [[c[i] for c in cells] for i in range(len(rows))])
+    sx.require(len(cells[0]) == len(rows), "one-row-per-layer")
+    for i, layer in enumerate(rows):
+        sx.require(cells[0][i] == layer.short_name, "overview-names-the-layer")
+        sx.require(cells[2][i] == str(len(list(layer.services))), "overview-counts-the-services")
+        sx.require(cells[3][i] == str(len(layer.diag_data_dictionary_spec.data_object_props)),
+                   "overview-counts-the-data-objects")
+        want = {"EV": n, "P1": min(1, len(names)), "SD1": 0, "SD2": 0}[layer.short_name]
+        sx.require(cells[4][i] == str(want), "overview-counts-the-communication-parameters")
 
 
 LIM = {"quick": explore.Limits(max_paths=2000, wall_s=200), "thorough": explore.Limits(max_paths=20000, wall_s=900)}
@@ -296,6 +317,8 @@ def configs(tier, seed):
     for q in (1, 2):
         out.append({"id": f"overview/3-comparams-{q}-qualified", "harness": "overview", "n": 3,
                     "qualified": q, "build": {}})
+    out.append({"id": "overview/rows", "harness": "overview", "n": 3,
+                "rows": ["P1", "SD1", "EV", "SD2"], "build": {}})
     return out
 
 
